@@ -283,9 +283,15 @@ def handleFmt (tbl : TextTable) (N : NumTy) (vt module idx style coef consS pows
   let convOk : Outcome := if !(N.tOk coefT && N.tOk f) then .guard "fixed-width factor"
     else if mx == x then .ok else .diff s!"fmt.{vt}.value.model" s!"model={mx} impl={x}"
   -- for float storage the published coefficient must be the table's
+  -- (for a user-declared quantity or an added unit — C19 — the table row *is* the declaration in the
+  -- macro invocation, so a mismatch is the property failing: the unit does not convert as declared)
+  let isUsr := module.startsWith "usr." || module.startsWith "added."
+  let mismatch (t c tc cc : String) : Outcome :=
+    if isUsr then .prop "usr.decl.oracle" s!"the unit's published coefficient/offset ({c}, {cc}) is not the one declared in its macro invocation ({t}, {tc})"
+    else .diff "fmt.table" s!"table={t},{tc} impl={c},{cc}"
   let tblOk : Outcome := match vt with
-    | "f64" => if row.conv[0]! == coef && row.conv[2]! == consS then .ok else .diff "fmt.table" s!"table={row.conv[0]!} impl={coef}"
-    | "f32" => if row.conv[3]! == coef && row.conv[5]! == consS then .ok else .diff "fmt.table" s!"table={row.conv[3]!} impl={coef}"
+    | "f64" => if row.conv[0]! == coef && row.conv[2]! == consS then .ok else mismatch row.conv[0]! coef row.conv[2]! consS
+    | "f32" => if row.conv[3]! == coef && row.conv[5]! == consS then .ok else mismatch row.conv[3]! coef row.conv[5]! consS
     | _ => .ok
   let st := if style == "a" then Style.abbreviation else Style.description
   let expect := fmtArgs (fun _ => raw) (fun _ => isOneV N vt x) row.labels st ()
@@ -731,6 +737,32 @@ def handleLine (tbl : TextTable) (line : String) : Option LineResult :=
         else if ratAbs (o.toRat - exact) ≤ 2 * k * uro f * ratAbs exact then .ok
         else .prop "pow.oracle" "a factor of the base-unit combination is not the base unit's coefficient raised to the quantity's exponent"
     return ⟨[cmpFl f "pow.model" m o, orc], [s!"pow:{e}"], e != 0 && Fl.cmp c (Fl.one f) != some 0⟩
+  | ["xpow", vt, coef, e, obs] => do
+    -- the same for exact / integer storage (factor type: a ratio, compared exactly) and for complex
+    -- storage (factor type: the real float; `powi` is the library's, so only the oracle applies)
+    let e ← parseInt? e
+    if vt == "complex32" || vt == "complex64" then
+      let f := if vt == "complex32" then b32 else b64
+      let c ← flOf? f coef
+      let o ← flOf? f obs
+      let orc : Outcome :=
+        if !(c.isFinite && o.isFinite) || c.isZero then .guard "non-finite"
+        else
+          let exact : Rat := c.toRat ^ e
+          let k : Rat := (2 * (e.natAbs.log2 + 1) + 1 : Nat)
+          if !(Fl.isNormal f o) then .guard "overflow/underflow"
+          else if ratAbs (o.toRat - exact) ≤ 2 * k * uro f * ratAbs exact then .ok
+          else .prop "pow.oracle" "a factor of the base-unit combination is not the base unit's coefficient raised to the quantity's exponent"
+      return ⟨[orc], [s!"xpow:{e}"], e != 0 && Fl.cmp c (Fl.one f) != some 0⟩
+    else
+      if (numTy? vt).isNone then none
+      let c ← parseRat? coef
+      let o ← parseRat? obs
+      let orc : Outcome :=
+        if c = 0 then .guard "zero coefficient"
+        else if o = c ^ e then .ok
+        else .prop "pow.oracle" "a factor of the base-unit combination is not the base unit's coefficient raised to the quantity's exponent"
+      return ⟨[orc], [s!"xpow:{e}"], e != 0 && c != 1⟩
   | ["b2", vt, form, _q, _u, a, b, qres, rawres] =>
     match numTy? vt with
     | some N => handleSame N vt form a b qres rawres
